@@ -534,6 +534,30 @@ def gen_level3_sparse(rng: random.Random, tier: str) -> dict:
     return scn
 
 
+def gen_level4_pam(rng: random.Random, tier: str) -> dict:
+    """Level 4 maps with the permutation-aware algorithm (two routing
+    rounds, blocks pre-synthesised under every input/output permutation):
+    four or five qudits with three-qudit structure and SWAPs on a sparse
+    graph, so that cyclic block permutations and a non-identity mapping
+    after the first round occur."""
+    from dst.workload import compile_inputs as CI
+    n = rng.choice([4, 4, 5])
+    inp = CI.gen_circuit(rng, n, rng.randint(6, 10), p3=0.15,
+                         barriers=False, blocks=False)
+    for _ in range(rng.randint(0, 2)):
+        inp['gates'].insert(rng.randrange(len(inp['gates']) + 1),
+                            {'g': 'swap', 'q': rng.sample(range(n), 2)})
+    model = {'n': n + (1 if rng.random() < 0.2 else 0), 'd': 2,
+             'graph': rng.choice(['line', 'line', 'star', 'ring']),
+             'gateset': 'default'}
+    opts = {'optimization_level': 4, 'max_synthesis_size': 3,
+            'seed': rng.randrange(10 ** 6),
+            'num_workers': rng.randint(2, 4)}
+    scn = compile_scn(rng, inp, model, opts)
+    scn['policy']['preempt_gap'] = 0
+    return scn
+
+
 def gen_c01(rng: random.Random, tier: str) -> dict:
     from dst.workload import compile_inputs as CI
     big = tier == 'thorough'
@@ -542,6 +566,8 @@ def gen_c01(rng: random.Random, tier: str) -> dict:
         return gen_deep_routing(rng, tier)
     if r0 < 0.18:
         return gen_level3_sparse(rng, tier)
+    if r0 < 0.30:
+        return gen_level4_pam(rng, tier)
     n = rng.choice([1, 2, 2, 3, 3, 4] + ([5, 6] if big else []))
     depth = rng.randint(2, 10 if n <= 3 else 7)
     inp = CI.gen_circuit(rng, n, depth)
